@@ -59,13 +59,23 @@ def k_festival_next(eng, which):
         tot = "(+ (* %d %s) %s %s)" % (size, year.s, idx.s, n.s)
         pre = ["(<= 1 %s 9999)" % year.s, "(<= 0 %s %d)" % (idx.s, size - 1), "(<= (- 1000000) %s 1000000)" % n.s, "(<= %d %s)" % (size, tot)]
 
+        def refused(p):
+            """the step answers None (or anything else) WITHOUT asking from_index for the target"""
+            cl = [c for c in p.calls if c[0] == owner + "::from_index"]
+            return len(cl) == 0 and isinstance(p.ret, M.Variant) and p.ret.name == "None"
+
         def shape(p):
+            if refused(p):
+                return None
             cl = [c for c in p.calls if c[0] == owner + "::from_index"]
             if len(cl) != 1 or p.ret is not cl[0][2]:
                 return "result is not what %s::from_index returns" % owner
             return None if all(isinstance(x, T) for x in cl[0][1]) else "from_index is not given numbers"
 
         def posts(p):
+            if refused(p):
+                # inside the stated range (target year 1..9999) every step must be looked up
+                return [("target-in-range-is-looked-up", "(not (<= %d %s %d))" % (size, tot, size * 9999 + size - 1))]
             y2, i2 = [c for c in p.calls if c[0] == owner + "::from_index"][0][1]
             return [("index-range", "(<= 0 %s %d)" % (i2.s, size - 1)), ("n-places-along-the-list", "(= (+ (* %d %s) %s) %s)" % (size, y2.s, i2.s, tot))]
         return ctx, paths, pre, posts, shape
